@@ -7,7 +7,8 @@
     Encodings: class -> [ty_code]; handler -> 0 default function, 1 _unconvert_datetime (plain function),
     2 _unconvert_none, 3 the value None, 10+k _unconvert_datetime bound to instance k of the harness's pool.
     [fmt] is a table measured by calling the function _unconvert_datetime directly on (instance k, value j);
-    [DTbl] checks that the measured table does not depend on the instance (the hypothesis of the theorems). *)
+    [DTbl] checks the hypothesis of the theorems: the interpreter rebinds registered bound methods to the caller
+    ([rebinds], measured) or the measured table does not depend on the instance. *)
 From OfxV Require Import Base.Prelude Model.Dispatch.
 Local Open Scope N_scope.
 
@@ -53,19 +54,19 @@ Inductive dcase :=
 | DCase (progs : list (list op)) (events : list event) (snaps : list snap)
         (seq_outs : list (result outv)) (thr_outs : list (list (result outv))).
 
-Definition ev_step (rereg : bool) (fmt : inst -> pyval -> result text) (cfg : state * list thread) (e : event)
+Definition ev_step (rereg rebinds : bool) (fmt : inst -> pyval -> result text) (cfg : state * list thread) (e : event)
   : (state * list thread) * option (result outv) :=
   match e with
-  | ESeq o => let (st', out) := run_op rereg fmt (fst cfg) o in ((st', snd cfg), out)
-  | EStep k => (sched_step rereg fmt cfg k, None)
+  | ESeq o => let (st', out) := run_op rereg rebinds fmt (fst cfg) o in ((st', snd cfg), out)
+  | EStep k => (sched_step rereg rebinds fmt cfg k, None)
   end.
-Fixpoint run_events (rereg : bool) (fmt : inst -> pyval -> result text) (cfg : state * list thread) (evs : list event)
+Fixpoint run_events (rereg rebinds : bool) (fmt : inst -> pyval -> result text) (cfg : state * list thread) (evs : list event)
   : (state * list thread) * list snap * list (result outv) :=
   match evs with
   | [] => (cfg, [], [])
   | e :: r =>
-      let (cfg1, out) := ev_step rereg fmt cfg e in
-      let '(cfg2, snaps, outs) := run_events rereg fmt cfg1 r in
+      let (cfg1, out) := ev_step rereg rebinds fmt cfg e in
+      let '(cfg2, snaps, outs) := run_events rereg rebinds fmt cfg1 r in
       (cfg2, snap_of (fst cfg1) :: snaps, match out with Some x => x :: outs | None => outs end)
   end.
 
@@ -79,12 +80,12 @@ Definition out_eqb : result outv -> result outv -> bool := result_eqb true outv_
 Definition dict_eqb : list (N * N) -> list (N * N) -> bool := list_eqb (pair_eqb N.eqb N.eqb).
 Definition snap_eqb : snap -> snap -> bool := pair_eqb dict_eqb dict_eqb.
 
-Definition dcase_ok (rereg : bool) (tbl : fmt_tbl) (c : dcase) : bool :=
+Definition dcase_ok (rereg rebinds : bool) (tbl : fmt_tbl) (c : dcase) : bool :=
   match c with
-  | DTbl => tbl_self_irrelevant tbl
+  | DTbl => rebinds || tbl_self_irrelevant tbl
   | DCase progs events snaps seq_outs thr_outs =>
       let fmt := fmt_of tbl in
-      let '(cfg, msnaps, mouts) := run_events rereg fmt (init_state, map new_thread progs) events in
+      let '(cfg, msnaps, mouts) := run_events rereg rebinds fmt (init_state, map new_thread progs) events in
       list_eqb snap_eqb (snap_of init_state :: msnaps) snaps
       && list_eqb out_eqb mouts seq_outs
       && list_eqb (list_eqb out_eqb) (map (fun th => map d_out (done th)) (snd cfg)) thr_outs
